@@ -217,6 +217,10 @@ def run(ctx):
     if nset < 20 or npr < 3:
         raise Broken("C10.R12: %d setters, %d writes proved" % (nset, npr))
 
+    # ------------------------------------------------------------ R13
+    r13 = ctx.rule("C10.R13", "an attribute name never aborts the process: the path-component accessor is called within its asserted range for every name, the empty one included")
+    check_comp_index(P, r13)
+
     # ------------------------------------------------------------ R11
     r11 = ctx.rule("C10.R11", "the joined value of a list attribute (tls.peer_names) is built in a buffer that holds every element, every separator and the terminator")
     check_join_size(P, r11)
@@ -795,3 +799,79 @@ def check_reject_pure(P, eng, rule, setters):
 
 
 B_ASSIGN = {"=", "+=", "-=", "*=", "/=", "%=", "&=", "|=", "^=", "<<=", ">>="}
+
+
+def check_comp_index(P, rule):
+    """attr_path_get_comp(path, i) asserts i < path->num_comps (ut_assert aborts).  Every attribute name an application -
+    or a control client - hands in reaches these call sites, so the assertion must be provable at each of them: the
+    index below the number of components, and an index computed as an unsigned difference (`num - 1`) not wrapped
+    (the empty name parses to a path of zero components)."""
+    acc = P.fn("attr_path_get_comp")
+    pre = None
+    for b, cond in C.cond_blocks(acc):
+        l, op, r = C.cond_atom(acc, cond, False)
+        if isinstance(l, tuple) or isinstance(r, tuple):
+            continue
+        ln, rn = acc.nodes[acc._strip0(l)], acc.nodes[acc._strip0(r)]
+        if ln["k"] == "ref" and ln.get("dk") == "param" and rn["k"] == "member" and op == "<":
+            pre = ([i for i, p in enumerate(acc.params) if p["name"] == ln["name"]][0], rn["field"],
+                   [i for i, p in enumerate(acc.params) if p["name"] == acc.sn(rn["base"]).get("name")][0])
+    if pre is None:
+        rule.note("attr_path_get_comp no longer asserts its index: nothing to prove")
+        rule.instance("attr_path_get_comp (no asserted range)")
+        rule.ok("no assertion on the index", "accessor body")
+        return
+    ii, fld, bi = pre
+    eng = B.Engine(P)
+    # the tree's query interface (names come from the application or a control client) and what it reaches; the
+    # registration interface (attr_tree_add_*: names are the library's own literals) is C14.R3's business
+    roots = [g for g in P.fns_in("libxcm/core/attr_tree.c") if not g.static and not g.name.startswith(("attr_tree_add", "attr_tree_create", "attr_tree_destroy"))]
+    nd, work = set(roots), list(roots)
+    while work:
+        g = work.pop()
+        for c in g.calls():
+            nm = g.nodes[c].get("callee")
+            d = P.resolve_direct(g, nm) if nm else None        # direct calls only: the value callbacks are not part of the walk
+            if d is not None and d not in nd:
+                nd.add(d)
+                work.append(d)
+    n = 0
+    for f in P.functions:
+        if not f.file.startswith("libxcm/") or f is acc or f not in nd:
+            continue
+        calls = list(f.calls(acc.name))
+        if not calls:
+            continue
+        fb = B.FnBounds(eng, f)
+        for c in calls:
+            n += 1
+            args = f.nodes[c]["args"]
+            rule.instance("%s: %s" % (f.qname, f.show(c)[:50]))
+            F = fb.before.get(c, B.Facts())
+            idx = fb.lin(args[ii])
+            num = B.lin_term("%s->%s" % (fb.term(args[bi]), fld))
+            ok = idx is not None and fb.prove_le(F, B.lin_add(idx, B.lin_const(1)), num)
+            wrap_ok = True
+            o = f.nodes[f.origin(args[ii])]
+            d = f.def_expr(f._strip0(args[ii])) if f.nodes[f._strip0(args[ii])]["k"] == "ref" else None
+            for cand in (o, f.nodes[f._strip0(d)] if d is not None else None):
+                if cand is not None and cand["k"] == "bin" and cand["op"] == "-" and (cand.get("uns") or "size_t" in (cand.get("t") or "") or "unsigned" in (cand.get("t") or "")):
+                    a, b_ = fb.lin(cand["l"]), fb.lin(cand["r"])
+                    # decided with the facts in front of the subtraction itself: afterwards the (unsigned, hence
+                    # non-negative) result would "prove" its own precondition
+                    x, par, w = cand["id"], f.parents(), f.where()
+                    while x is not None and x not in w:
+                        x = par.get(x)
+                    Fd = fb.before.get(x, B.Facts()) if x is not None else B.Facts()
+                    if a is None or b_ is None or not fb.prove_le(Fd, b_, a):
+                        wrap_ok = False
+            if ok and wrap_ok:
+                rule.ok("%s: %s < %s at the call" % (f.name, f.show(args[ii])[:20], B.show_lin(num)), "difference constraints")
+            elif not wrap_ok:
+                rule.violation("%s:component-index-wraps" % f.name, "%s computes the component index `%s` as an unsigned difference that wraps when the path has no components "
+                               "(the empty attribute name): attr_path_get_comp's assertion aborts the process" % (f.name, f.show(args[ii])[:30]), loc=f.loc(c))
+            else:
+                rule.violation("%s:component-index-unbounded" % f.name, "%s calls attr_path_get_comp(%s) without the index being below the number of components on every path: "
+                               "the accessor's assertion aborts the process" % (f.name, f.show(args[ii])[:30]), loc=f.loc(c))
+    if n < 1:
+        raise Broken("C10.R13: no call of attr_path_get_comp on the query paths")
